@@ -55,6 +55,8 @@ pub struct CoSpec {
     /// argument of the adapter at each position (take: n; limit: n with 0 = None)
     pub args: [u32; 3],
     pub terminal: Terminal,
+    /// bulk run: the source delivers this many items back to back (0 = ordinary run)
+    pub bulk: u32,
 }
 
 impl CoSpec {
@@ -133,6 +135,7 @@ pub struct CoModel {
     pub errs: Vec<u32>,
     pub first_err_at: Option<usize>,
     pub resolved: bool,
+    pub bulk: u32,
 }
 
 fn co_prop(w: &World) -> bool {
@@ -244,6 +247,9 @@ pub fn on_poll_end(w: &mut World, id: NodeId, res: Res, val: Option<u32>) {
 pub fn on_root_poll_end(w: &mut World, out: &Out) {
     if !w.model.co.active {
         return;
+    }
+    if w.frame.iter().filter(|f| f.1.is_final() && Some(f.0) != w.model.co.source).count() >= 64 {
+        w.stats.p_bulk_frame64 += 1;
     }
     if out.res == Res::Pending || out.res == Res::Panic {
         return;
@@ -493,8 +499,18 @@ fn spawn<I: CoItem, M: Finish<I>>(stage: u8, item: I) -> SimWork<I, M> {
     let node = with(|w| {
         on_closure(w, stage, vid, &idx);
         let p = crate::gen::profile(w.prop);
-        let bias = 1 + w.ch.draw("work.errbias", 3);
-        let lp = fut_script(w, M::FALLIBLE, &p, true, bias);
+        let lp = if w.model.co.bulk > 0 {
+            let mut script = Vec::new();
+            if w.ch.draw("work.bulk.pend", 2) == 1 {
+                script.push(Step::Pend(crate::world::Wake::Later(w.ch.draw("work.bulk.delay", 3))));
+            }
+            let err = M::FALLIBLE && w.ch.draw("work.bulk.err", w.model.co.bulk) == 0;
+            script.push(Step::Ready { err });
+            crate::gen::LeafPlan { script, term: Term::Finished }
+        } else {
+            let bias = 1 + w.ch.draw("work.errbias", 3);
+            fut_script(w, M::FALLIBLE, &p, true, bias)
+        };
         let node = w.new_leaf(ROOT, lp.script, lp.term, false, M::FALLIBLE);
         on_work_created(w, node, stage, vid);
         node
@@ -640,6 +656,13 @@ fn stage_kinds(spec: &CoSpec) -> Vec<StageKind> {
     v
 }
 
+pub fn planned_items(plan: &Plan) -> u32 {
+    match &plan.shape {
+        Shape::Co { spec } => spec.bulk,
+        _ => 0,
+    }
+}
+
 pub fn build(spec: &CoSpec, plan: &Plan) -> Box<dyn Root> {
     let (src_node, vec_vals) = with(|w| {
         let r = w.new_node(NO_NODE, Family::CoStream);
@@ -651,6 +674,7 @@ pub fn build(spec: &CoSpec, plan: &Plan) -> Box<dyn Root> {
             stages,
             limit: spec.limit(),
             take: spec.take(),
+            bulk: spec.bulk,
             terminal: Some(spec.terminal),
             ..CoModel::default()
         };
@@ -720,7 +744,27 @@ pub fn plan(w: &mut World, p: &Profile, prop: &str) -> Plan {
             _ => 0,
         };
     }
-    let spec = CoSpec { stack, vec_source, vec_len, args, terminal };
+    // bulk run (one in twenty-five, not for C02): 65..135 source items back to back, then a pause, then the rest.
+    // Work futures finish after at most one delayed wake and fail rarely, so that dozens of completions (beyond a
+    // per-call budget of 32 or 64, beyond one 32-slot block of the buffered group) are pulled in one go.
+    let mut bulk = 0;
+    if !vec_source && prop != "C02" && !crate::gen::small() && w.ch.draw("co.bulk", 25) == 24 {
+        bulk = 65 + w.ch.draw("co.bulk.n", 70);
+        let mut script = vec![Step::Item; bulk as usize];
+        script.push(Step::Pend(crate::world::Wake::Later(4)));
+        for _ in 0..w.ch.draw("co.bulk.tail", 3) {
+            script.push(Step::Item);
+        }
+        script.push(Step::End);
+        leaves[0] = crate::gen::LeafPlan { script, term: Term::Finished };
+        for (i, a) in STACKS[stack].1.iter().enumerate() {
+            // limits below the bulk size would only serialise the run
+            if *a == Ad::Limit && w.ch.draw("co.bulk.limit", 2) == 1 {
+                args[i] = 0;
+            }
+        }
+    }
+    let spec = CoSpec { stack, vec_source, vec_len, args, terminal, bulk };
     let cancel_at = if p.allow_cancel && w.ch.draw("cancel", 5) == 4 { Some(w.ch.draw("cancel.at", 8)) } else { None };
     let _ = Term::Finished;
     Plan { shape: Shape::Co { spec }, leaves, cancel_at, max_yields: u32::MAX, distinguished: None }
